@@ -196,6 +196,23 @@ RefStep(R, T, prevO, c, res) ==
        IF x.k > 0 THEN RefStepMany(R, T, prevO, ps, c.t, c.e, x.k - 1)
        ELSE [r |-> R, t |-> T]
 
+\* which disjunct of DynImpl!Add the reference predicts for a single add_interaction call (vacuity indicator:
+\* the evidence reports how often each branch was exercised on the real code)
+BranchOf(R, c) ==
+  IF c.t = NoT THEN "MissingT"
+  ELSE LET p == Norm(R.dir, c.u, c.v)
+           S == AddedOf(R, p)
+           hasE == c.e # NoEnd /\ R.rem
+           end  == IF hasE THEN c.e - 1 ELSE c.t
+       IN IF S # {} /\ c.t < LatestRunStart(S) THEN "Reject"
+          ELSE IF end < c.t THEN "EmptySpan"
+          ELSE IF S = {} THEN "NewPair"
+          ELSE LET lb == MaxOf(S) IN
+               IF end <= lb THEN "Contained"
+               ELSE IF c.t <= lb THEN "ExtendOverlap"
+               ELSE IF c.t = lb + 1 THEN "ExtendAdjacent"
+               ELSE "AppendRun"
+
 \* C01: the call is rejected exactly by the documented rule (judged on
 \* removal-enabled graphs only, DESIGN.md 3.6)
 \* an empty span (e <= t) "starts" nowhere: the statement lets such a call be a no-op whatever its t, or be
